@@ -35,6 +35,10 @@ type Prog struct {
 	markers       []string
 	opaqueDefs    map[string]string
 	errIDs        map[string]int
+
+	heapKeyOnce     sync.Once
+	heapKeysByField map[string][]string
+	heapKeysByElem  map[string][]string
 }
 
 const modPath = "github.com/google/safehtml"
@@ -114,6 +118,31 @@ func loadProg(repoDir, specDir string) (*Prog, error) {
 	for _, sf := range specs {
 		if err := p.spec.loadSpecFile(sf); err != nil {
 			return nil, err
+		}
+	}
+	// "modset NAME: KEY KEY ..." names a group of heap locations; "@NAME" in a modifies option
+	// stands for the group
+	sets := map[string]string{}
+	for _, r := range p.spec.Raw["modset"] {
+		if k := strings.Index(r.Text, ":"); k > 0 {
+			sets[strings.TrimSpace(r.Text[:k])] = strings.TrimSpace(r.Text[k+1:])
+		}
+	}
+	for _, c := range p.spec.Contracts {
+		if m, ok := c.Options["modifies"]; ok && strings.Contains(m, "@") {
+			var out []string
+			for _, f := range strings.Fields(m) {
+				if strings.HasPrefix(f, "@") {
+					g, ok := sets[f[1:]]
+					if !ok {
+						return nil, fmt.Errorf("%s:%d: unknown modifies group %s", c.File, c.Line, f)
+					}
+					out = append(out, strings.Fields(g)...)
+				} else {
+					out = append(out, f)
+				}
+			}
+			c.Options["modifies"] = strings.Join(out, " ")
 		}
 	}
 	if err := p.buildPolicy(); err != nil {
@@ -275,6 +304,20 @@ func (fx *FuncCtx) run() {
 		id := fx.decl.Recv.List[0].Names[0]
 		obj := info.Defs[id]
 		st.env[obj] = fx.fresh(obj.Type(), id.Name)
+		if emb := strings.Fields(con.Options["embedded"]); len(emb) == 1 {
+			// "option embedded OWNER.FIELD": the receiver points to the by-value field FIELD of an
+			// OWNER object (checked at every call site: the argument must be exactly such a field)
+			if k := strings.Index(emb[0], "."); k > 0 {
+				owner, path := emb[0][:k], emb[0][k+1:]
+				ft := fx.prog.fieldType(owner, path)
+				if ft == nil {
+					panic(unsupported{"option embedded names an unknown field " + emb[0]})
+				}
+				r := fx.declare(sortInt, id.Name+"_owner")
+				fx.emit(fmt.Sprintf("(assert (<= 1 %s))", r))
+				st.env[obj] = VSub{Ref: r, Elem: owner, Path: path, T: ft}
+			}
+		}
 		fx.params[id.Name] = obj
 		if con.RecvName != "" && con.RecvName != id.Name {
 			panic(contractDrift{fmt.Sprintf("contract of %s names the receiver %q, the code %q", fx.key, con.RecvName, id.Name)})
